@@ -35,6 +35,9 @@ pub fn run(ctx: &Ctx) -> Report {
         "ring/jsonwebtoken signature verification is trusted; ECDSA (r, n-s) malleability is not a single-character edit and is not generated".into(),
         "a resolver that itself hands out an HS256 secret equal to public key bytes is a caller error and not generated".into(),
     ];
+    if ctx.only_case.is_none() && ctx.shard.is_none() && std::env::var("VERIF_LEG").is_err() {
+        crate::mon::history::leg(ctx, &mut rep, "C02");
+    }
     rep.floor("control.accepted", n.min(24));
     rep.floor("fault.char.rejected", 10_000);
     rep.floor("fault.structural.rejected", 300);
